@@ -243,6 +243,40 @@ func (c *poolBinComp) Exec(t []string) (extra []string, out string, eff bool) {
 			return nil, "err " + strings.Replace(canon(msg), " ", "_", -1), false
 		}
 		return nil, "ok", true
+	case "kbill":
+		// kbill <client> <host>: a billable keep-alive - the client reports the host as its peer a moment after
+		// registering, so it is charged elapsed*price/minute (some wei at the prices the generator uses)
+		who, host := identByName[t[1]], identByName[t[2]]
+		if c.refused[t[1]] {
+			return nil, "skipped-refused", false
+		}
+		time.Sleep(25 * time.Millisecond)
+		m, err := c.post(c.signed(who, 7, "vipnode_update", pool.UpdateRequest{BlockNumber: 1, PeerInfo: []ethnode.PeerInfo{{ID: host.id}}}))
+		if err != nil {
+			return nil, "err transport", false
+		}
+		if e := m["error"]; e != nil {
+			msg := string(e)
+			if i := strings.Index(msg, "Current balance ("); i >= 0 {
+				var cur, min string
+				fmt.Sscanf(msg[i:], "Current balance (%s", &cur)
+				cur = strings.TrimRight(cur, ")")
+				if j := strings.Index(msg, "required minimum ("); j >= 0 {
+					min = msg[j+len("required minimum ("):]
+					min = min[:strings.IndexAny(min, ")")]
+				}
+				return []string{"cur=" + cur}, "err LowBalance " + cur + " " + min, true
+			}
+			if strings.Contains(msg, "Invalid interval settings") {
+				return nil, "err InvalidSettings", false
+			}
+			return nil, "err " + strings.Replace(canon(msg), " ", "_", -1), false
+		}
+		var resp pool.UpdateResponse
+		if err := json.Unmarshal(m["result"], &resp); err != nil || resp.Balance == nil {
+			return nil, "err no-balance-in-reply", false
+		}
+		return []string{"cur=" + resp.Balance.Credit.String()}, "ok", true
 	case "hostmode":
 		// hostmode <conn> ack|refuse
 		if bc := c.conns[t[1]]; bc != nil {
@@ -356,7 +390,28 @@ func (c *poolBinComp) genConfig(r *rand.Rand, idx int, emit func(string)) {
 	emit("kalive n7")
 }
 
+// genOverdraw: a client that has been billed below zero against every kind of configured minimum (zero in several
+// spellings, just below zero, far below zero, none)
+func (c *poolBinComp) genOverdraw(r *rand.Rand, idx int, emit func(string)) {
+	mins := []string{"0", "0_wei", "0.0", "0_ether", "-1", "-1_wei", "off", "-1_ether", "0"}
+	emit(fmt.Sprintf("start min=%s price=%s max=0", mins[(idx/6)%len(mins)], pick(r, []string{"100_gwei", "1_ether", "3_gwei"})))
+	emit("hostconn c0 n0")
+	emit("client n6")
+	emit("kbill n6 n0")
+	emit("client n6")
+	emit("kalive n6")
+	emit("client n7")
+	if r.Intn(2) == 0 {
+		emit("kbill n7 n0")
+		emit("client n7")
+	}
+}
+
 func (c *poolBinComp) Gen(r *rand.Rand, idx int, emit func(string)) {
+	if idx%6 == 5 {
+		c.genOverdraw(r, idx, emit)
+		return
+	}
 	if idx%2 == 1 {
 		c.genConfig(r, idx, emit)
 		return
